@@ -68,6 +68,11 @@ func newDuplexHTTPCall(
 		url,
 		pipeReader,
 	)
+	if err != nil {
+		// There is no request at all then. The call fails below; until it
+		// does, keep the accessors of the request usable.
+		request = &http.Request{Method: http.MethodPost}
+	}
 	request.Header = header
 	client := &duplexHTTPCall{
 		ctx:               ctx,
@@ -83,7 +88,11 @@ func newDuplexHTTPCall(
 		// We can't construct a request, so we definitely can't send it over the
 		// network. Exhaust the sync.Once immediately and short-circuit Read and
 		// Write by setting an error.
-		client.sendRequestOnce.Do(func() {})
+		client.sendRequestOnce.Do(func() {
+			// There will never be a response: don't make Read and CloseRead
+			// wait for one.
+			close(client.responseReady)
+		})
 		connectErr := errorf(CodeUnavailable, "construct *http.Request: %w", err)
 		client.SetError(connectErr)
 	}
